@@ -63,8 +63,10 @@ fn weight_candidates(v: f64, e: f64) -> Vec<(i64, i64)> {
 pub fn check_image(c: &ImgCase, pixels: &[u32], region: Option<(i32, i32, i32, i32)>) -> ImgResult {
     let inv = T64::from(&c.ctm).inverse().expect("invertible");
     let m = inv.then(&T64::from(&c.src_t));
-    // both transforms are integer translations: everything is exact and the integer fast path must be exact too
-    let exact_m = is_exact_integer_translation(&T64::from(&c.ctm)) && is_exact_integer_translation(&T64::from(&c.src_t));
+    // pixel -> image space is exactly an integer translation (in f64 and in the f32 product the library
+    // can form): everything is exact and whichever path the library takes must return the exact texel
+    let f32_product_exact = c.ctm.inverse().map(|ti| is_exact_integer_translation(&T64::from(&ti.then(&c.src_t)))).unwrap_or(false);
+    let exact_m = is_exact_integer_translation(&m) && f32_product_exact;
     let ab = opacity_byte(c.alpha) as f64;
     let texel = |x: i64, y: i64| -> u32 { c.data[(wrap(y, c.ih as i64, c.repeat) * c.iw as i64 + wrap(x, c.iw as i64, c.repeat)) as usize] };
     let mut res = ImgResult { asserted: 0, ambiguous: 0, exact_asserted: 0, violation: None };
@@ -207,6 +209,15 @@ fn gen_case(rng: &mut Rng) -> ImgCase {
         2 => rng.f64() as f32,
         _ => 1.0,
     };
+    // a family of its own: the source transform cancels the current transform's linear part, so that
+    // pixel -> image space is a pure translation although neither transform is one
+    let (src_t, ctm) = if rng.chance(0.15) {
+        let s = |rng: &mut Rng| *rng.pick(&[0.5f32, 2.0, 4.0, 0.25, -1.0, 1.0]);
+        let c = Transform::scale(s(rng), s(rng)).then_translate(euclid::vec2(rng.int(-4, 4) as f32, rng.int(-4, 4) as f32));
+        (c.then_translate(euclid::vec2(axis(rng, 8), axis(rng, 8))), c)
+    } else {
+        (src_t, ctm)
+    };
     ImgCase { w, h, iw, ih, data, repeat: rng.chance(0.5), bilinear: rng.chance(0.5), src_t, ctm, alpha }
 }
 
@@ -267,14 +278,26 @@ pub fn run(ctx: &Ctx) -> Outcome {
         let img = Image { width: iw, height: ih, data: &data[..] };
         let sized = rng.chance(0.5);
         let mut dt = DrawTarget::new(w, h);
+        // sometimes under a power-of-two scale that the requested size cancels again
+        let k = if sized && rng.chance(0.3) { *rng.pick(&[2.0f32, 0.5, 4.0]) } else { 1.0 };
+        let ctm = if k != 1.0 { Transform::scale(k, k) } else { Transform::identity() };
+        dt.set_transform(&ctm);
         let o = opts(BlendMode::Src, 1., true);
         let mut co = CaseOut::default();
         let (x, y, rw, rh);
         if sized {
-            x = rng.range(-4., w as f64 - 1.) as f32;
-            y = rng.range(-4., h as f64 - 1.) as f32;
-            rw = rng.range(1., 2. * w as f64) as f32;
-            rh = rng.range(1., 2. * h as f64) as f32;
+            if k != 1.0 {
+                // user-space size iw/k, ih/k: device size iw x ih, integer or fractional position
+                x = if rng.chance(0.5) { rng.int(-2, 6) as f32 } else { axis(&mut rng, 4) };
+                y = if rng.chance(0.5) { rng.int(-2, 6) as f32 } else { axis(&mut rng, 4) };
+                rw = iw as f32 / k;
+                rh = ih as f32 / k;
+            } else {
+                x = rng.range(-4., w as f64 - 1.) as f32;
+                y = rng.range(-4., h as f64 - 1.) as f32;
+                rw = rng.range(1., 2. * w as f64) as f32;
+                rh = rng.range(1., 2. * h as f64) as f32;
+            }
             dt.draw_image_with_size_at(rw, rh, x, y, &img, &o);
         } else {
             // integer positions mostly (the statement's texel placement), but also fractional ones per axis
@@ -287,8 +310,8 @@ pub fn run(ctx: &Ctx) -> Outcome {
         co.hash = crate::prng::hash_str(&format!("{:?}{:?}{}", (w, h, iw, ih, x, y, rw, rh), data, sized));
         let pixels = dt.get_data().to_vec();
         // pixels whose square lies inside the rectangle have full coverage: Src stores the shader output
-        let (rx0, ry0, rx1, ry1) = (x.ceil() as i32, y.ceil() as i32, (x + rw).floor() as i32, (y + rh).floor() as i32);
-        let c = ImgCase { w, h, iw, ih, data: data.clone(), repeat: false, bilinear: true, src_t: Transform::translation(-x, -y).then_scale(iw as f32 / rw, ih as f32 / rh), ctm: Transform::identity(), alpha: 1. };
+        let (rx0, ry0, rx1, ry1) = ((x * k).ceil() as i32, (y * k).ceil() as i32, ((x + rw) * k).floor() as i32, ((y + rh) * k).floor() as i32);
+        let c = ImgCase { w, h, iw, ih, data: data.clone(), repeat: false, bilinear: true, src_t: Transform::translation(-x, -y).then_scale(iw as f32 / rw, ih as f32 / rh), ctm, alpha: 1. };
         let res = check_image(&c, &pixels, Some((rx0, ry0, rx1, ry1)));
         st.add("px_asserted", res.asserted);
         st.add(if sized { "draw_image_with_size_at" } else { "draw_image_at" }, 1);
@@ -313,7 +336,7 @@ pub fn run(ctx: &Ctx) -> Outcome {
         // everything outside the rectangle (grown by a pixel) is untouched
         for py in 0..h {
             for px in 0..w {
-                let outside = (px as f32 + 1.) <= x - 0.01 || (px as f32) >= x + rw + 0.01 || (py as f32 + 1.) <= y - 0.01 || (py as f32) >= y + rh + 0.01;
+                let outside = (px as f32 + 1.) <= x * k - 0.01 || (px as f32) >= (x + rw) * k + 0.01 || (py as f32 + 1.) <= y * k - 0.01 || (py as f32) >= (y + rh) * k + 0.01;
                 if outside && pixels[(py * w + px) as usize] != 0 {
                     co.viol("C13", format!("pixel ({},{}) outside the image rectangle was painted", px, py));
                 }
